@@ -122,3 +122,69 @@ def graph_and_records(draw, canonical, max_records, min_records=1, tags=True, ma
                                         # conversion only reverses the CIGAR: M runs and N (reference skip) runs are legal too
                                         cigar_ops=draw(st.sampled_from(["=XID", "=XID", "=XIDMN"])))))
     return g, recs
+
+
+# ------------------------------------------------------------------------------------------
+# exhaustive sub-space: every walk of 1..3 steps over a small fixed graph x boundary offsets
+
+FIXED_NODES = {
+    "r1": {"seq": "ACG", "ln": 3, "sn": "chr1", "so": 0, "sr": 0},
+    "r2": {"seq": "T", "ln": 1, "sn": "chr1", "so": 3, "sr": 0},
+    "r3": {"seq": "GGCA", "ln": 4, "sn": "chr1", "so": 4, "sr": 0},
+    "r4": {"seq": "TC", "ln": 2, "sn": "chr1", "so": 8, "sr": 0},
+    "a1": {"seq": "CA", "ln": 2, "sn": "HG002#1#ctg1", "so": 100, "sr": 1},
+    "a2": {"seq": "TTG", "ln": 3, "sn": "HG002#1#ctg1", "so": 102, "sr": 1},
+    "a3": {"seq": "GAT", "ln": 3, "sn": "HG002#1#ctg1", "so": 200, "sr": 1},
+    "b1": {"seq": "AG", "ln": 2, "sn": "HG002#2#ctg1", "so": 0, "sr": 2},
+}
+FIXED_LINKS = [
+    ["r1", "+", "r2", "+"], ["r2", "+", "r3", "+"], ["r3", "+", "r4", "+"],      # the reference path
+    ["r1", "+", "a1", "+"], ["a1", "+", "a2", "+"], ["a2", "+", "r3", "+"],      # an allele of two abutting segments
+    ["r2", "+", "b1", "-"], ["b1", "-", "r3", "+"],                              # an inverted allele
+    ["r3", "+", "a3", "+"], ["a3", "+", "r4", "+"],                              # a separated segment of the same contig
+    ["r1", "+", "r3", "+"],                                                      # a deletion
+    ["r4", "+", "r3", "-"],                                                      # a hairpin
+    ["r3", "+", "r2", "+"],                                                      # a tandem duplication (back link)
+]
+
+
+def fixed_graph():
+    return {"nodes": {k: dict(v) for k, v in FIXED_NODES.items()}, "links": [list(l) for l in FIXED_LINKS]}
+
+
+def all_walks(g, max_steps=3):
+    lm = models.LinkModel(g["links"])
+    out = []
+    frontier = [[(n, o)] for n in g["nodes"] for o in "+-"]
+    for _ in range(max_steps):
+        out += frontier
+        nxt = []
+        for w in frontier:
+            for step in lm.steps(*w[-1]):
+                nxt.append(w + [step])
+        frontier = nxt
+    return [[(">" if o == "+" else "<", n) for n, o in w] for w in out]
+
+
+def small_space_records(canonical, max_steps=3):
+    g = fixed_graph()
+    recs = []
+    k = 0
+    for steps in all_walks(g, max_steps):
+        lens = [g["nodes"][n]["ln"] for _, n in steps]
+        total = sum(lens)
+        starts = sorted({0, 1, lens[0] - 1, lens[0]} & set(range(total)))
+        ends = sorted({total, total - 1, total - lens[-1] + 1, total - lens[-1]} & set(range(1, total + 1)))
+        for ps in starts:
+            for pe in ends + [ps + 1]:
+                if not (ps < pe <= total):
+                    continue
+                if canonical and not (ps < lens[0] and pe > total - lens[-1]):
+                    continue
+                n = pe - ps
+                cg = "%d=" % n if n == 1 else "1X%d=" % (n - 1)
+                k += 1
+                recs.append({"name": "e%d" % k, "qlen": n + 2, "qs": 1, "qe": n + 1, "strand": "+", "steps": [list(s) for s in steps],
+                             "plen": total, "ps": ps, "pe": pe, "matches": n - (0 if n == 1 else 1), "block": n, "mapq": 60,
+                             "cg": cg, "tags": ["NM:i:%d" % (k % 7)], "cg_pos": k % 2})
+    return g, recs
